@@ -38,3 +38,12 @@ T("C15", "twin-limit-hoisted-slice-object", "utils.py", _OLD, _HOIST)
 M("C15", "limit-hoisted-zero-is-a-limit", "utils.py", _OLD, _HOIST.replace("limit = max_offset if max_offset else None", "limit = max_offset if max_offset is not None else None"), "C15.R5")
 M("C15", "limit-hoisted-nonstrict", "utils.py", _OLD, _HOIST.replace("limit is not None and pos > limit", "limit is not None and pos >= limit"), "C15.R5")
 M("C15", "slice-object-unguarded", "utils.py", _OLD, _HOIST.replace("carry = slice(-overlap_len, None) if overlap_len else slice(0, 0)", "carry = slice(-overlap_len, None)"), "C15.R2")
+
+# ArtifactKit scanner: a match must not be skipped under a further condition
+_AK_OLD = "            data = fobj.read(size)\n            payload = utils.xor(data, xorkey)\n"
+M("C15", "artifact-skip-short-payload", "artifact.py", _AK_OLD,
+  "            data = fobj.read(size)\n            if len(data) != size:\n                pos += 1\n                continue\n            payload = utils.xor(data, xorkey)\n", "C15.R6")
+M("C15", "artifact-stop-at-empty-payload", "artifact.py", _AK_OLD,
+  "            data = fobj.read(size)\n            if not data:\n                return\n            payload = utils.xor(data, xorkey)\n", "C15.R6")
+T("C15", "twin-artifact-log-before-yield", "artifact.py", _AK_OLD,
+  "            data = fobj.read(size)\n            if len(data) != size:\n                logger.debug(\"truncated payload at %d\", pos)\n            payload = utils.xor(data, xorkey)\n")
